@@ -52,3 +52,29 @@ Proof.
   - split; [discriminate|tauto].
   - rewrite orb_true_iff, IH, str_eqb_eq. split; intros [H|H]; auto.
 Qed.
+
+Lemma rset_absent_app r k v : rhas r k = false -> rset r k v = r ++ [(k, v)].
+Proof.
+  induction r as [|[k' v'] r IH]; simpl; [reflexivity|].
+  intros H. apply orb_false_iff in H as [H1 H2]. rewrite H1. f_equal. apply IH, H2.
+Qed.
+
+Lemma rkeys_app a b : rkeys (a ++ b) = rkeys a ++ rkeys b.
+Proof. unfold rkeys. apply map_app. Qed.
+
+(* building a dict from pairs with distinct keys keeps the pairs as they are *)
+Lemma fold_rset_nodup l : forall acc,
+  NoDup (rkeys acc ++ rkeys l) ->
+  fold_left (fun a kv => rset a (fst kv) (snd kv)) l acc = acc ++ l.
+Proof.
+  induction l as [|[k v] l IH]; intros acc ND; simpl; [rewrite app_nil_r; reflexivity|].
+  assert (A : rhas acc k = false).
+  { destruct (rhas acc k) eqn:E; [|reflexivity]. apply rhas_In in E.
+    simpl in ND. apply NoDup_remove_2 in ND. exfalso. apply ND. apply in_or_app. left. exact E. }
+  rewrite rset_absent_app by exact A. rewrite IH.
+  - rewrite <- app_assoc. reflexivity.
+  - rewrite rkeys_app. simpl. rewrite <- app_assoc. exact ND.
+Qed.
+
+Lemma rdict_nodup l : NoDup (rkeys l) -> rdict l = l.
+Proof. intros H. unfold rdict, rupdate. rewrite fold_rset_nodup; [reflexivity|exact H]. Qed.
